@@ -66,7 +66,7 @@ def main() -> int:
         bad["ev"][1]["obs"][1]["meanq"] += 60
         _expect("Trace_Moments", good, bad, "C10 running mean", at=2)
         # C17: one rotation altered
-        tr = c17.job({"id": 0, "shapes": [(2, 2, 8)], "hists": [[("dm", 1), ("period", 2), ("dm", 0)]]})[0]
+        tr = c17.job({"id": 0, "family": "A", "shapes": [(2, 2, 8)], "hists": [[("dm", 1), ("period", 2), ("dm", 0)]]})[0]
         good = {"hdr": tr["hdr"], "ev": tr["ev"]}
         bad = copy.deepcopy(good)
         bad["ev"][1]["rot"][1][1] = (bad["ev"][1]["rot"][1][1] + 1) % 8
